@@ -1,4 +1,5 @@
 import IceProofs.AgentC05
+import IceProofs.AgentAuto
 /-!
 # What an agent puts on the wire with a role attribute (for the two-agent part of C05)
 
@@ -108,11 +109,11 @@ after unfolding `Agent.core`, which `simp` refuses to assign; these propositiona
 @[simp high] theorem core_mk' (cfg tieBreaker controlling started closed connState localUfrag localPwd remoteUfrag remotePwd
     locals remotes checklist nextPairID nextUid nextTid tag pending selected selStart nominatedPair lastNomination answeredNomination
     lastSeen checkingStart checkingTimeout forcePending nextTick caches rx connBytesSent connBytesRecv
-    onConnectedFired generation nomIssued) :
+    onConnectedFired generation nomIssued lastRenomTime nomCounter) :
     (Agent.mk cfg tieBreaker controlling started closed connState localUfrag localPwd remoteUfrag remotePwd
     locals remotes checklist nextPairID nextUid nextTid tag pending selected selStart nominatedPair lastNomination answeredNomination
     lastSeen checkingStart checkingTimeout forcePending nextTick caches rx connBytesSent connBytesRecv
-    onConnectedFired generation nomIssued).core = ⟨cfg, tieBreaker, tag, controlling, lastNomination, localUfrag, localPwd,
+    onConnectedFired generation nomIssued lastRenomTime nomCounter).core = ⟨cfg, tieBreaker, tag, controlling, lastNomination, localUfrag, localPwd,
       remoteUfrag, remotePwd, started, closed⟩ := (core_mk ..).trans rfl
 @[simp high] theorem core_eta' (y : Agent) : Core.mk y.cfg y.tieBreaker y.tag y.controlling y.lastNomination y.localUfrag
     y.localPwd y.remoteUfrag y.remotePwd y.started y.closed = y.core := (core_eta y).trans rfl
@@ -208,6 +209,18 @@ after unfolding `Agent.core`, which `simp` refuses to assign; these propositiona
           · exact ⟨by simp [hc], ho⟩
 
 /-! ## timer-driven work -/
+
+@[simp] theorem ok_autoRenom (a : Agent) (now : Nat) {c : Core} (h : a.core = c) : OutsOKc c (a.autoRenom now).2 := by
+  subst h
+  refine (IceProofs.Auto.autoRenom_parts (P := fun x => x.1.core = a.core ∧ OutsOKc a.core x.2) ?_ a ⟨rfl, by simp⟩).2
+  exact {
+    mark := fun b _ id _ h _ _ => ⟨h.1, h.2⟩
+    ping := fun b o l r h _ _ => ⟨by simp [h.1], by simp only [OutsOKc_append]; exact ⟨h.2, ok_ping b now l r h.1⟩⟩
+    time := fun _ _ h => ⟨h.1, h.2⟩
+    count := fun _ _ h => ⟨h.1, h.2⟩
+    issue := fun b o l r nom h _ _ _ _ _ =>
+      ⟨by simp [h.1], by simp only [OutsOKc_append]; exact ⟨h.2, ok_sendRequest b now l r true nom h.1⟩⟩
+    log := fun _ _ _ h => ⟨h.1, h.2⟩ }
 
 @[simp] theorem ok_contactCandidates (a : Agent) (now : Nat) {c : Core} (h : a.core = c) :
     OutsOKc c (a.contactCandidates now).2 := by
